@@ -330,6 +330,56 @@ pub fn run_c12(tier: Tier) -> i32 {
         strings.push(b.to_string());
         fen_mutants(b, &mut strings);
     }
+    // rank-sum vectors: up to three ranks of a valid placement replaced by ranks that describe
+    // 1 .. 36 squares (written without adjacent digits: "8p8p6" is 24), every choice of ranks and
+    // sums — wrong sums of every magnitude in several ranks at once, in every order
+    {
+        let rank_of_sum = |mut sum: usize| -> String {
+            let mut t = String::new();
+            while sum > 9 {
+                t.push_str("8p");
+                sum -= 9;
+            }
+            if sum == 9 {
+                t.push_str("8p");
+            } else if sum > 0 {
+                if t.is_empty() && sum == 8 {
+                    t.push('8');
+                } else {
+                    t.push_str(&sum.to_string());
+                }
+            }
+            t
+        };
+        let sums = [1usize, 6, 7, 9, 10, 15, 16, 17, 23, 24, 25, 31, 32, 33, 36];
+        for base in ["k7/8/8/8/8/8/8/K7 w - - 0 1", "4k3/pppppppp/8/8/8/8/PPPPPPPP/4K3 b - - 3 9"] {
+            let (placement, rest) = base.split_once(' ').unwrap();
+            let ranks: Vec<&str> = placement.split('/').collect();
+            let mut emit = |edits: &[(usize, usize)], strings: &mut Vec<String>| {
+                let mut r: Vec<String> = ranks.iter().map(|x| x.to_string()).collect();
+                for &(i, sidx) in edits {
+                    r[i] = rank_of_sum(sums[sidx]);
+                }
+                strings.push(format!("{} {}", r.join("/"), rest));
+            };
+            for i in 0..8 {
+                for a in 0..sums.len() {
+                    emit(&[(i, a)], &mut strings);
+                    for j in (i + 1)..8 {
+                        for b in 0..sums.len() {
+                            emit(&[(i, a), (j, b)], &mut strings);
+                            if j == i + 1 && j + 1 < 8 {
+                                // three adjacent ranks (chains)
+                                for c in 0..sums.len() {
+                                    emit(&[(i, a), (j, b), (j + 1, c)], &mut strings);
+                                }
+                            }
+                        }
+                    }
+                }
+            }
+        }
+    }
     let n_mutants = strings.len();
     // all strings of length <= 3 over the alphabet
     let a = FEN_ALPHABET;
@@ -348,7 +398,7 @@ pub fn run_c12(tier: Tier) -> i32 {
     let counters: [AtomicU64; 4] = Default::default();
     par_map(&strings, |s| judge_fen_string(&rep, s, &counters));
     fams.push(json!({
-        "family": "single-fault mutants of 12 base FENs, sum-preserving double faults across two ranks, slash swaps, + all strings of length <= 3 over a 42-character alphabet",
+        "family": "single-fault mutants of 12 base FENs, sum-preserving double faults across two ranks, slash swaps, rank permutations, rank-sum vectors (up to three ranks describing 1..36 squares), + all strings of length <= 3 over a 42-character alphabet",
         "mutants_generated": n_mutants,
         "distinct_strings": strings.len(),
         "classified_invalid_must_reject": counters[0].load(Ordering::Relaxed),
